@@ -2,6 +2,8 @@
 from __future__ import annotations
 
 import ast
+import contextlib
+import io
 import inspect
 import itertools
 import sys
@@ -1031,6 +1033,103 @@ def visit_oracle(ctx: Ctx, p, res) -> None:
                      f"{'documented as a new attribute' if r['w_documented'] else 'not documented'} (_maybeAttribute looked along allbases())")
 
 
+# ------------------------------------------------------------------ visit-time lookups across an import cycle (round 6)
+
+VCP = "c05vc"
+
+
+def gen_visit_cyclic(rng, nclasses: int, h=None, fixed: Optional[Dict[str, Any]] = None) -> Dict[str, Any]:
+    """the hierarchy of `gen_visit` split over two modules that import each other: `a` (analysed first) starts with
+    `from c05vc.z import helper`, which makes pydoctor analyse `z` while `a` is still in progress; `z` imports some
+    base-less classes back from `a` - not known yet when the classes of `z` that derive from them are visited, so those
+    have an unresolved base and an incomplete visit-time linearisation.  Probes in `z`: `class Xk(Ck.Inner)`.
+    (seeded C05-r6-2: the `stop at an incomplete class` guard of expandName hoisted out of the MRO loop.)"""
+    if fixed is not None:
+        return fixed
+    first = 2
+    if h is None:
+        h = random_hierarchy(rng, nclasses, first)
+    else:
+        h = [tuple(j + 1 for j in b) for b in h]
+    ids = list(range(first, first + nclasses))
+    bases = {str(c): list(b) for c, b in zip(ids, h)}
+    roots = [c for c in ids if not bases[str(c)]]
+    away = sorted(c for c in roots if rng.random() < 0.6) or roots[:1]
+    inner = sorted(set(c for c in ids if rng.random() < 0.5))
+    return {"n": len(ids), "bases": bases, "inner": inner, "away": away}
+
+
+def vc_sources(p) -> Tuple[str, str, str]:
+    """(a.py, z.py, the same classes in one module for CPython)"""
+    ids = sorted(int(c) for c in p["bases"])
+
+    def cls(c: int) -> str:
+        b = p["bases"][str(c)]
+        body = "    class Inner:\n        def f(self):\n            \"Inner of C%d\"\n" % c if c in p["inner"] else "    pass\n"
+        return "class C%d%s:\n%s" % (c, "(%s)" % ", ".join("C%d" % j for j in b) if b else "", body)
+    away = [c for c in ids if c in p["away"]]
+    here = [c for c in ids if c not in p["away"]]
+    flat = "".join(cls(c) for c in away) + "".join(cls(c) for c in here)
+    ns: Dict[str, Any] = {}
+    legal = set()
+    for st in ast.parse(flat).body:
+        try:
+            exec(compile(ast.Module(body=[st], type_ignores=[]), "m0", "exec"), ns)
+            legal.add(st.name)
+        except (TypeError, NameError):
+            pass
+    probes = "".join("class X%d(C%d.Inner):\n    pass\n" % (c, c) for c in ids if "C%d" % c in legal and hasattr(ns["C%d" % c], "Inner"))
+    a_src = "from %s.z import helper\n" % VCP + "".join(cls(c) for c in away)
+    z_src = "def helper():\n    pass\n" + ("from %s.a import %s\n" % (VCP, ", ".join("C%d" % c for c in away)) if away else "") \
+        + "".join(cls(c) for c in here) + probes
+    return a_src, z_src, flat + probes
+
+
+def run_visit_cyclic(p) -> Tuple[Dict[int, Dict[str, Any]], Optional[str]]:
+    from pydoctor import model
+    a_src, z_src, flat = vc_sources(p)
+    try:
+        system = model.System()
+        builder = system.systemBuilder(system)
+        builder.addModuleString("", VCP, is_package=True)
+        builder.addModuleString(a_src, "a", parent_name=VCP)
+        builder.addModuleString(z_src, "z", parent_name=VCP)
+        with contextlib.redirect_stdout(io.StringIO()):
+            builder.buildModules()
+    except Exception as e:
+        return {}, "Crash:" + type(e).__name__ + ":" + str(e)[:80]
+    ns: Dict[str, Any] = {"__name__": "m0"}
+    for st in ast.parse(flat).body:
+        try:
+            exec(compile(ast.Module(body=[st], type_ignores=[]), "m0", "exec"), ns)
+        except (TypeError, NameError):
+            pass
+    res: Dict[int, Dict[str, Any]] = {}
+    z = system.allobjects[VCP + ".z"]
+    for c in sorted(int(c) for c in p["bases"]):
+        x, k = z.contents.get("X%d" % c), ns.get("X%d" % c)
+        if x is None or k is None:
+            continue
+        b = x.baseobjects[0] if x.baseobjects else None
+        res[c] = {"pd": b.fullName() if b is not None else None,
+                  "py": k.__bases__[0].__qualname__,
+                  "mro": [m.fullName().split(".", 2)[-1] if hasattr(m, "fullName") else str(m) for m in x.mro(True)][1:],
+                  "pymro": [m.__qualname__ for m in k.__mro__[1:-1]]}
+    return res, None
+
+
+def visit_cyclic_oracle(ctx: Ctx, p, res) -> None:
+    a_src, z_src, _flat = vc_sources(p)
+    for c, r in res.items():
+        inp = {"project": p, "class": c, "files": {VCP + "/a.py": a_src, VCP + "/z.py": z_src}}
+        if r["pd"] is None:
+            continue            # unresolved: incomplete, not wrong (and not what this stream judges)
+        if r["pd"].split(".", 2)[-1] != r["py"]:
+            ctx.fail("visit-time-lookup:incomplete-linearisation-trusted", inp,
+                     f"class X{c}(C{c}.Inner) in a module analysed while a base of the hierarchy is not resolved yet: "
+                     f"Python's base is {r['py']}, pydoctor's is {r['pd']}")
+
+
 # ------------------------------------------------------------------ hierarchies nested in a class body
 
 NM0, NM1 = "c05n0", "c05n1"
@@ -1560,6 +1659,26 @@ def run(ctx: Ctx) -> None:
             if not ok:
                 ctx.disagree("expandName-at-visit-time~Mro.findEarly", pl, mo, io)
 
+    # ---- the same lookups in a module analysed while a base class (imported back from the module in progress) is unresolved
+    vcp = [gen_visit_cyclic(ctx.rng, 0, fixed={"n": 4, "bases": {"2": [], "3": [], "4": [2], "5": [4, 3]}, "inner": [2, 3], "away": [2]}),
+           gen_visit_cyclic(ctx.rng, 0, fixed={"n": 4, "bases": {"2": [], "3": [], "4": [2], "5": [3, 4]}, "inner": [2, 3], "away": [2]})]
+    for n in range(2, 5):
+        for h in hierarchies(n):
+            vcp.append(gen_visit_cyclic(ctx.rng, n, h=h))
+    for _ in range(150 if ctx.quick else 4000):
+        vcp.append(gen_visit_cyclic(ctx.rng, ctx.rng.randint(4, 8)))
+    for p in vcp:
+        res, crash = run_visit_cyclic(p)
+        if crash:
+            ctx.fail("crash:" + crash.split(":")[1], {"project": p}, crash)
+            continue
+        ctx.case("visit-cyclic %s %s %s" % (p["bases"], p["inner"], p["away"]), any(len(b_) >= 2 for b_ in p["bases"].values()))
+        ctx.count("visit-cyclic:projects")
+        ctx.count("visit-cyclic:probes", len(res))
+        ctx.count("visit-cyclic:probes-resolved", sum(1 for r in res.values() if r["pd"] is not None))
+        ctx.count("visit-cyclic:probes-through-an-incomplete-class", sum(1 for r in res.values() if any(q.split(".")[0] in ["C%d" % a for a in p["away"]] for q in r["pymro"])))
+        visit_cyclic_oracle(ctx, p, res)
+
     # ---- Generic[T] at any position among the bases (typing drops it when a later base is subscripted; so does
     #      compute_mro.getbases since commit 749fc3a): models (localBases / mroEntries) and direct oracle
     areq, aout, breq, bout, apay = [], [], [], [], []
@@ -1629,6 +1748,17 @@ def replay(ctx: Ctx, obj) -> int:
             print("pydoctor : ValueError", e)
         print("Mro      :", ctx.driver.run(["mro merge " + ltoken(inp["lists"])])[0])
         print("PyMro    :", ctx.driver.run(["mro pmerge " + ltoken(inp["lists"])])[0])
+    elif "project" in inp and "away" in inp["project"]:
+        p = inp["project"]
+        a_src, z_src, _flat = vc_sources(p)
+        print("# ---- %s/a.py (analysed first)\n%s# ---- %s/z.py\n%s" % (VCP, a_src, VCP, z_src))
+        res, crash = run_visit_cyclic(p)
+        if crash:
+            print("pydoctor :", crash)
+            return 1
+        for c, r in sorted(res.items()):
+            print("X%d: pydoctor base %s, CPython base %s" % (c, r["pd"], r["py"]))
+        visit_cyclic_oracle(ctx, p, res)
     elif "project" in inp:
         p = inp["project"]
         for n, s in sorted(p["modules"].items()):
